@@ -425,6 +425,13 @@ func judgeC17(w *World, r *cliRun, cmds []*svcCmd, clean bool, healthy *Conn, st
 				if len(q.Subscriptions) == 1 {
 					for _, c := range cmds {
 						if c.kind == "sub" && !seenOnWire[c.tag] && c.topic == q.Subscriptions[0].Topic && c.qos == int(q.Subscriptions[0].QOS) && order(c) > lastWireIdx {
+							if c.fut != nil && c.fut.resolved && c.fut.err != nil && c.fut.at < x.seq {
+								// dequeued while the client was dead: its future was
+								// cancelled before this packet went out, so the packet
+								// is not that command (the command has updated the
+								// set to restore, though - ambiguousExplains)
+								continue
+							}
 							cmd = c
 							break
 						}
